@@ -11,6 +11,7 @@ pub mod c11;
 pub mod c12;
 pub mod c13;
 pub mod c14;
+pub mod c15;
 pub mod common;
 
 pub fn run(ctx: &Ctx) -> Option<CheckOutput> {
@@ -26,6 +27,7 @@ pub fn run(ctx: &Ctx) -> Option<CheckOutput> {
 		"C12" => c12::run(ctx),
 		"C13" => c13::run(ctx),
 		"C14" => c14::run(ctx),
+		"C15" => c15::run(ctx),
 		_ => return None,
 	})
 }
@@ -55,6 +57,7 @@ pub fn replay_file(path: &str) -> i32 {
 			"C12" => c12::replay(case),
 			"C13" => c13::replay(case),
 			"C14" => c14::replay(case),
+			"C15" => c15::replay(case),
 			_ => Some(format!("no replayer for {prop}")),
 		}
 	};
